@@ -103,8 +103,10 @@ func TestC16(t *testing.T) {
 		}
 		synctest.Test(t, func(t *testing.T) { c16Run(t, run, sc, run.Rand(i+1<<30)) })
 	}
-	if desc := map[string]any{"kind": "sub-path-service-under-load-while-other-services-come-and-go"}; run.Mine(n+9000, desc) {
-		c16Load(t, run, desc)
+	for k := 0; k < run.N(1, 6); k++ { // the thorough tier repeats it: its reach is a matter of volume
+		if desc := map[string]any{"kind": "sub-path-service-under-load-while-other-services-come-and-go", "round": k}; run.Mine(n+9000+k, desc) {
+			c16Load(t, run, desc)
+		}
 	}
 }
 
